@@ -76,13 +76,11 @@ func (c *connection) reader() {
 				if errors.Is(err, net.ErrClosed) || errors.Is(err, io.EOF) {
 					slog.Debug("connection close",
 						slog.Bool("join", join),
-						slog.Any("platform num", c.platformSerialNumber),
 						slog.Any("err", err))
 					return
 				}
 				slog.Error("read data",
 					slog.Bool("join", join),
-					slog.Any("platform num", c.platformSerialNumber),
 					slog.Any("err", err))
 				return
 			} else if n > 0 {
@@ -91,7 +89,6 @@ func (c *connection) reader() {
 				if err != nil {
 					slog.Error("parse data",
 						slog.Bool("join", join),
-						slog.Any("platform num", c.platformSerialNumber),
 						slog.String("effective data", fmt.Sprintf("%x", effectiveData)),
 						slog.Any("err", err))
 					return
